@@ -108,6 +108,12 @@ type engineOut struct {
 // needs, then runs the real engine (Match/Replace per change, in order, on the
 // same *ast.File, exactly as main.go's patchRunner.Apply does).
 func runEngineCase(c Case) (out engineOut) {
+	defer func() {
+		// a panic outside the guarded Match/Replace loop (parsing or compiling the patch)
+		if r := recover(); r != nil {
+			out = engineOut{skip: "panic: " + fmt.Sprint(r)}
+		}
+	}()
 	fset := token.NewFileSet()
 	var changes []*engine.Change
 	var pchanges []*parse.Change
